@@ -71,7 +71,7 @@ def gen_rules(rnd, svcnames):
     for nm in names:
         r = {}
         if rnd.random() < 0.7:
-            r["class"] = rnd.choice(["c1", "c2", "trusted", "Opers", "x" * rnd.choice([3, 40]),
+            r["class"] = rnd.choice(["c1", "c2", "trusted", "Opers", "x" * rnd.choice([3, 40]), "",
                                      # at and around the size of the request's class field (CLASSLEN 63)
                                      "".join(rnd.choice("abcdefghijklmnopqrstuvwxyz") for _ in range(rnd.choice([61, 62, 63, 64, 65, 100])))])
         if rnd.random() < 0.3:
@@ -494,6 +494,8 @@ class Gen:
                           ("xr_not_awaited", 0.4), ("xr_malformed", 0.3), ("xr_notfinal", 0.4)):
                 if f in self.faults:
                     acts.append((wt, ("badreply", f)))
+            if getattr(self, "stray_next", 0) > 0 and any(a for i in w.live.values() for a in i.awaiting.values()):
+                acts.append((6.0, ("badreply", "xr_not_awaited")))
         if "wall_jump" in self.faults:
             acts.append((0.1, "wall"))
         for f, wt in (("cfg_same", 0.15), ("cfg_torn", 0.1), ("cfg_garbage", 0.1), ("cfg_missing", 0.05),
@@ -649,6 +651,21 @@ class Gen:
             kind, text = self.reply_text(r.choice(svcs))
             text = r.choice([text, "OK stolen:1", "NO go away", "MORE riddle me this"])
             op = {"op": "xreply", "cid": cid, "inst": "cur", "svc": r.choice(svcs), "kind": kind, "text": text}
+            if f == "xr_not_awaited":
+                self.stray_next = getattr(self, "stray_next", 0) - 1
+                waiting = sorted(c for c, i in w.live.items() if any(i.awaiting.values()))
+                if waiting and r.random() < 0.7:
+                    # a client that is waiting for somebody else's answer, named by a configured service it was
+                    # never sent to (preferably a neighbour of the awaited one in the table)
+                    op["cid"] = r.choice(waiting)
+                    i = w.live[op["cid"]]
+                    order = sorted(self.svc_now, key=lambda n: n.lower())
+                    rest = [n for n in order if n not in i.awaiting]
+                    aw = [n for n in order if i.awaiting.get(n)]
+                    near = [n for n in rest if any(abs(order.index(n) - order.index(a)) == 1 for a in aw)]
+                    if rest:
+                        op["svc"] = r.choice(near if near and r.random() < 0.6 else rest)
+                        self.fire("xr_never_asked_service_names_waiting_client")
             if f == "xr_stale":
                 op["cid"] = r.choice(self.ids)
                 op["inst"] = r.choice(["prev", "prev", "prev:1", "prev:2", "prev:5"])
@@ -699,6 +716,15 @@ class Gen:
             self.add_next = True
             if r.random() < 0.7:
                 return
+        elif w and waited and waited[0][0] > 0 and r.random() < 0.3 and \
+                [n for c, n in waited if c == 0 and not any(n in i.awaiting for i in w.live.values())]:
+            # a service nobody has been asked about goes while clients wait for another one: the table loses an
+            # entry under the waiters (whatever it does with the slot, their outstanding answers stay theirs)
+            idle = [n for c, n in waited if c == 0 and not any(n in i.awaiting for i in w.live.values())]
+            del self.svc_now[r.choice(idle)]
+            self.fire("cfg_removed_idle_service_under_waiters")
+            self.stray_next = 3
+            return
         elif getattr(self, "add_next", False) and len(self.svc_now) < 4 and r.random() < 0.8:
             self.add_next = False
             pool = [n for n in SVC_POOL if n not in self.svc_now and n not in self.svc_ever] or [n for n in SVC_POOL if n not in self.svc_now]
@@ -1184,7 +1210,7 @@ class Exec:
         w = self.w
         live = sorted(w.live)
         try:
-            rep = self.h.audit(live[0] if live else None)
+            rep = self.h.audit(live)
         except (H.HostDied, H.HostHang) as ex:
             self.died = type(ex).__name__
             return False
@@ -1192,16 +1218,11 @@ class Exec:
         self.log("audit", "", rep.notes)
         for n in rep.notes:
             if n.startswith("AUDIT FAIL"):
-                w.v(("C10",), "audit", "structural audit of the daemon's sets failed: %s" % rep.notes)
+                w.v(("C10",), "audit", "structural audit of the configuration tree failed: %s" % rep.notes)
                 return False
-            if n.startswith("AUDIT ok"):
-                nreq = int(n.split("nreq=")[1])
-                if live and nreq == -2:
-                    w.v(("C10",), "audit-lookup", "live client %d is not found in the daemon's request table" % live[0])
-                    return False
-                if live and nreq != len(live):
-                    w.v(("C10",), "audit-count", "request table holds %d entries, model has %d live" % (nreq, len(live)))
-                    return False
+            if n.startswith("AUDIT MISSING"):
+                w.v(("C10",), "audit-lookup", "live client %s is not found in the daemon's request table (iauth_find_request)" % n.split()[2])
+                return False
         return True
 
     def do_eof(self):
